@@ -573,6 +573,8 @@ def gen_ops(rng, cfg, rc, nops, pool, allow_big, p_override=0.12, p_bad=0.03):
             if rng.random() < p_bad:
                 reason = rng.choice([b"\xff", b"r" * 124])
             ops.append(["C", code, rbits, reason.hex()])
+            if rng.random() < 0.6:
+                break
         else:
             # a data frame with the same content as an earlier one (history reuse)
             prev = [o for o in ops if o[0] == "S" and o[1] in (OP_TEXT, OP_BINARY)]
@@ -775,17 +777,24 @@ def suite_codec(ctx, exe, loop):
     import time
     t1 = time.time()
     lines = [model_line(c) for c in cases]
-    model = run_model_parallel(exe, lines)
+    if exe is None:
+        # no model runner (broken translator / proof build): the property oracle still runs on the implementation
+        model = [None] * len(cases)
+        cases = [c for c in cases if sum(len(o[4 if o[0] == "S" else 3]) for o in c["ops"]) < 400000]
+        model = [None] * len(cases)
+    else:
+        model = run_model_parallel(exe, lines)
     ctx.notes.append(f"codec: model answered {len(lines)} cases in {time.time() - t1:.1f}s")
     for c, ml in zip(cases, model):
-        if ml.startswith(("EXN", "BADREQ")):
+        if ml is not None and ml.startswith(("EXN", "BADREQ")):
             ctx.disagreement("codec:writer", _small(c), ml[:200], "model runner failed")
             continue
         check_case(ctx, loop, c, ml, "codec")
-    ctx.sample({"suite": "codec", "case": _small(cases[len(cases) // 2]), "model": model[len(cases) // 2][:300]})
-    ctx.close_suite("codec:writer", len(cases))
-    ctx.close_suite("codec:reader", len(cases))
-    ctx.close_suite("codec:validity", len(cases))
+    ctx.sample({"suite": "codec", "case": _small(cases[len(cases) // 2]), "model": (model[len(cases) // 2] or "")[:300]})
+    if exe is not None:
+        ctx.close_suite("codec:writer", len(cases))
+        ctx.close_suite("codec:reader", len(cases))
+        ctx.close_suite("codec:validity", len(cases))
 
 
 # ------------------------------------------------------------------------------------------------
@@ -1115,19 +1124,20 @@ def run_corpus(ctx, exe, loop):
                 ctx.violation(case, "corpus " + os.path.basename(f) + ": " + bad)
         else:
             c = {k: case[k] for k in ("cfg", "rc", "ops", "cuts", "backend") if k in case}
-            ml = run_model(exe, [model_line(c)])[0] if c.get("backend", "toy") == "toy" else None
+            ml = run_model(exe, [model_line(c)])[0] if (exe is not None and c.get("backend", "toy") == "toy") else None
             check_case(ctx, loop, c, ml, "corpus")
         ran += 1
     ctx.count("suite:corpus", ran)
-    ctx.close_suite("corpus:writer", max(ran, 1))
-    ctx.close_suite("corpus:reader", max(ran, 1))
+    if exe is not None:
+        ctx.close_suite("corpus:writer", max(ran, 1))
+        ctx.close_suite("corpus:reader", max(ran, 1))
 
 
 def run(ctx):
     ok, exe = build_model()
     ctx.oblige("model-runner-build", "correspondence", ok, "" if ok else exe)
     if not ok:
-        return
+        exe = None          # search the implementation anyway (property oracle only)
     loop = asyncio.new_event_loop()
     inline_executor(loop)
     import time
